@@ -196,6 +196,32 @@ def witness(ctx, extra=None):
     return None
 
 
+def _clear_inverses(ctx, d, max_rounds=6):
+    """multiply d by the arguments of the reciprocal atoms it contains until none is left"""
+    inv = ctx.inv_args
+    for _ in range(max_rounds):
+        name, deg = None, 0
+        for (mono, _ang) in d.t:
+            for n, p in mono:
+                if n in inv and p > deg:
+                    name, deg = n, p
+        if name is None:
+            return d
+        P = inv[name]
+        if len(d.t) * (len(P.t) ** deg) > 20000:
+            return None
+        powers = [SNum.const(1)]
+        for _k in range(deg):
+            powers.append(powers[-1] * P)
+        out = SNum({})
+        for (mono, ang), co in d.t.items():
+            pw = dict(mono).get(name, 0)
+            rest = tuple((n, p) for n, p in mono if n != name)
+            out = out + SNum({(rest, ang): co}) * powers[deg - pw]
+        d = out
+    return None
+
+
 def _flatten(x):
     if isinstance(x, np.ndarray):
         return x.shape, list(x.ravel())
@@ -225,6 +251,17 @@ def check_close(ctx, a, b, tol, label):
         st.entries += 1
         if d.t:
             diffs.append((i, d))
+    # reciprocal atoms: d = sum_j d_j * inv^j with inv * P = 1  =>  d * P^deg is a polynomial; if that
+    # polynomial vanishes identically (up to float residue) then d = 0 wherever P != 0 (which the path
+    # condition guarantees: the division was executed)
+    if diffs and getattr(ctx, 'inv_args', None):
+        kept = []
+        for i, d in diffs:
+            d2 = _clear_inverses(ctx, d)
+            if d2 is not None and not d2.pruned(1e-11).t:
+                continue
+            kept.append((i, d))
+        diffs = kept
     rec = {'label': label, 'entries': len(fa), 'nontrivial_entries': len(diffs), 'tol': tol}
     if not diffs:
         st.vcs_trivial += 1
@@ -321,6 +358,7 @@ def _subst_cond(c, pins):
         d = c[2]
         for n, e in pins:
             d = d.substitute_expr(n, e)
+        d = d.pruned()  # float residue of non-dyadic pin coefficients must not decide a literal
         if d.is_const():
             v = d.const_value()
             op = c[1]
@@ -345,6 +383,9 @@ def _pc_conds(ctx, pins):
     for c in list(ctx.pc) + list(ctx.atom_defs):
         out.append(c)
         c2 = _subst_cond(c, pins)
+        # a literal that turns into the constant False under the pins (after pruning float residue) shows
+        # that the path condition is contradictory in exact arithmetic: the path was only explored because
+        # the over-approximation could not see it; its VCs are vacuous
         if c2 is not c and not (isinstance(c2, bool) and c2):
             out.append(c2)
     return out
